@@ -11,10 +11,10 @@
                                 probability zero: excluded by the oracle contract O-choice)
      jointp probs ids           product of probs[k][ids[k]]
    The model contains the REPAIRED behaviour of finding F9 (samples_needed < 1 returns the exact weights). *)
-From Coq Require Import QArith Qround.
+From Coq Require Import QArith Qround Permutation Sorted.
 From CKT Require Import Common.Base Extracted.Facts Model.Weights.
 From CKT Require Import Proofs.WeightsP Proofs.WeightsDfs Proofs.WeightsGen Proofs.WeightsTab.
-From CKT Require Import Proofs.WeightsSum Proofs.WeightsCount Proofs.WeightsUnb Proofs.WeightsMachine.
+From CKT Require Import Proofs.WeightsSum Proofs.WeightsCount Proofs.WeightsUnb Proofs.WeightsMachine Proofs.WeightsRef Proofs.WeightsSort.
 Open Scope Q_scope.
 
 (* valid probs: every vector is non-negative and sums to 1 (WeightsGen.valid) *)
@@ -66,40 +66,44 @@ Theorem c04_count_sum : forall probs perms q tape r,
      wsum r == q /\ (Z.of_nat (length r) <= Qceiling q)%Z).
 Proof. exact count_sum. Qed.
 
-(* Unbiasedness.  expected_weight = the weight of an exact entry, or single_sample_weight * E[count] where E[count]
-   follows _populate_samples using only O-choice (E[count_i of n draws from p] = n p_i, calls independent).
-   For EVERY joint map (exact ones trivially, all others by the telescoping product of the renormalised tables) the
-   expected weight is N * p, under no_entry_in_cutoff and N <= 1e14.
-   PARTIAL: the branch in which the single-leftover shortcut fires (leftover_walk = Some (Some rs): one map absorbs
-   the whole remaining weight, marked EXACT) is excluded by hypothesis.  The full statement, OPEN:
-     c04_unbiased_open : forall probs perms q ids c, valid probs -> sorting_perms_b probs perms = true ->
-       nonzero_atol * q <= 1 -> no_entry_in_cutoff probs perms (1 / q) -> gen_core probs perms (Fin q) = Ok c ->
-       in_range probs ids -> expected_weight probs perms (Fin q) ids == q * jointp probs ids.
-   (what is missing: the walk of the shortcut consults the tables at every level, the sampler stops consulting at the
-   first prefix without a table; relating the two needs the prefix-closedness of the set of yielded tables.) *)
-Theorem c04_unbiased_partial : forall probs perms q ids c,
+(* Unbiasedness.  expected_weight = the weight of an entry that is returned without sampling, or
+   single_sample_weight * E[count] where E[count] follows _populate_samples using only O-choice
+   (E[count_i of n draws from p] = n p_i, calls independent).
+   For EVERY joint map -- exact ones trivially, the single-leftover shortcut by the walk lemma, all others by the
+   telescoping product of the renormalised conditional tables -- the expected weight is N * p, under
+   no_entry_in_cutoff (precisely: every input entry is 0 or > atol, and no raw conditional-table entry of the DFS run in
+   sorted coordinates with threshold 1/N lies in (0, atol]) and N <= 1e14. *)
+Theorem c04_unbiased : forall probs perms q ids c,
   valid probs -> sorting_perms_b probs perms = true -> nonzero_atol * q <= 1 ->
   no_entry_in_cutoff probs perms (1 / q) ->
   gen_core probs perms (Fin q) = Ok c ->
-  (forall mins ret cond wts0 rs,
-      all_some (map min_filter_nonzero probs) = Some mins -> ~ 1 / q <= qprod mins ->
-      dfs_acc probs perms q = (ret, cond, wts0) -> (1 <= Qceiling (wts0 * q))%Z ->
-      leftover_walk probs cond [] = Some (Some rs) -> False) ->
   in_range probs ids ->
   expected_weight probs perms (Fin q) ids == q * jointp probs ids.
-Proof. exact unbiased_partial. Qed.
+Proof. exact unbiased. Qed.
 
-(* The step machine (line-by-line `while True` loop, with fuel) produces the yields of the specification.
-   FINITE-DOMAIN theorem, by computation over ALL 40494 inputs with 1..3 bases, each a non-increasing vector of 1..3
-   entries k/4 (k <= 3), and the thresholds 1/64, 1/16, 1/8, 1/4, 1/2, 1; numbers compared with Qeq (the machine's
-   first running product is probs[0][0], the specification's 1 * probs[0][0]).  The unbounded statement, OPEN:
-     c04_machine_refines_spec_open : forall probs thr, probs <> [] -> Forall (fun b => b <> []) probs ->
-       exists ys, run_machine (fuel_bound probs) probs thr = Some ys /\ yields_eqb ys (dfs_spec probs thr) = true.
-   Independently of this theorem, BOTH the machine and the specification are compared with the implementation's
-   yield sequence on every correspondence case (chk_sorted). *)
-Theorem c04_machine_refines_spec_fin :
-  forallb (fun p => forallb (refines_b p) fin_thrs) fin_inputs = true /\ N.of_nat (length fin_inputs) = 40494%N.
-Proof. split; [exact machine_refines_spec_fin|exact fin_inputs_count]. Qed.
+(* The step machine (line-by-line `while True` loop of
+   _generate_exact_weights_and_conditional_probabilities_assume_sorted, run with fuel) produces the SEQUENCE of yields of
+   the recursive specification, for every number of bases and maps and every threshold; sortedness is not needed.
+   yields_eqb compares states exactly and numbers with Qeq: the machine's first running product is probs[0][0] while the
+   specification computes 1 * probs[0][0] (equal numbers, different fractions); everything else is syntactically equal
+   (Proofs/WeightsRef.machine_runs).  fuel_bound probs = 2 * (number of prefixes of the full tree) + 2. *)
+Theorem c04_machine_refines_spec : forall probs thr,
+  probs <> [] -> Forall (fun b => b <> []) probs ->
+  exists ys, run_machine (fuel_bound probs) probs thr = Some ys /\ yields_eqb ys (dfs_spec probs thr) = true.
+Proof. exact machine_refines_spec. Qed.
+
+(* generate_qpd_weights = final_sort of _generate_qpd_weights: a rearrangement sorted by (type value, -weight)
+   (sle a b: key a <= key b); keys are pairwise distinct, so every lookup -- hence every theorem above -- transfers
+   to the public function.  (Stability of the insertion sort is part of the model, compared on every public case.) *)
+Theorem c04_final_sort : forall probs perms N tape r,
+  gen_weights probs perms N tape = Some (Ok r) ->
+  Permutation (final_sort r) r /\ StronglySorted sle (final_sort r) /\
+  NoDup (map fst r) /\ forall k, dget (final_sort r) k = dget r k.
+Proof.
+  intros probs perms N tape r G. pose proof (result_nodup _ _ _ _ _ G) as ND.
+  split; [apply final_sort_perm|]. split; [apply final_sort_sorted|]. split; [exact ND|].
+  intros k. now apply final_sort_dget.
+Qed.
 
 (* NaN, -inf and every finite budget below 1 are refused, whatever else is passed *)
 Theorem c04_refuses : forall probs perms tape N,
@@ -147,7 +151,13 @@ Example c04_ex_bound_needed :
             Qle_bool (1 / (100000000000000000 # 1)) (jointp exTiny [1; 1; 1; 1]%nat) = true.
 Proof. eexists. split; [vm_compute; reflexivity|split; vm_compute; reflexivity]. Qed.
 
-(* the hypotheses of c04_count_sum / c04_unbiased_partial are satisfiable on an input that really samples *)
+(* the machine on the running example (sorted coordinates): 3 yields, pops and a pruned sibling included *)
+Example c04_ex_machine :
+  run_machine (fuel_bound (sorted_probs exP exPerms)) (sorted_probs exP exPerms) (1 # 4)
+  = Some [YFull [0; 0]%nat (3 # 8); YCond [0]%nat [0; 4 # 4]; YCond [] [1 # 8; 1 # 4; 1 # 4]].
+Proof. vm_compute. reflexivity. Qed.
+
+(* the hypotheses of c04_count_sum / c04_unbiased are satisfiable on an input that really samples *)
 Example c04_ex_no_cutoff : no_entry_in_cutoff_b exP exPerms (1 / 4) = true /\
                            raw_tables (sorted_probs exP exPerms) (1 / 4) <> [].
 Proof. split; [vm_compute; reflexivity|vm_compute; discriminate]. Qed.
@@ -167,8 +177,9 @@ Example c04_ex_f9 :
 Proof. eexists. split; [vm_compute; reflexivity|]. split; [reflexivity|]. split; vm_compute; reflexivity. Qed.
 
 Print Assumptions c04_count_sum.
-Print Assumptions c04_unbiased_partial.
-Print Assumptions c04_machine_refines_spec_fin.
+Print Assumptions c04_unbiased.
+Print Assumptions c04_machine_refines_spec.
+Print Assumptions c04_final_sort.
 Print Assumptions c04_exact_complete.
 Print Assumptions c04_no_zero.
 Print Assumptions c04_infinite.
